@@ -77,6 +77,13 @@ type C16Req struct {
 	TimeoutMs int    `json:"timeout_ms,omitempty"`
 }
 
+// histResp lets a GetHistogram response be judged like the responses that carry documents.
+type histResp struct {
+	*seqproxyapi.GetHistogramResponse
+}
+
+func (histResp) GetDocs() []*seqproxyapi.Document { return nil }
+
 // protoDocs iterates the documents of a Search response.
 type protoDocs struct {
 	docs []*seqproxyapi.Document
@@ -564,7 +571,14 @@ func (r *c16Runner) script() {
 				var resp docsResponse
 				var gerr error
 				pq := &seqproxyapi.SearchQuery{Query: "k0:a", From: timestamppb.New(time.UnixMilli(0)), To: timestamppb.New(time.UnixMilli(4102444800000))}
-				if (rq.Offset+rq.Size+rq.TimeoutMs)%2 == 0 {
+				if (rq.Offset+rq.Size+rq.TimeoutMs)%3 == 2 {
+					// a handler that fetches nothing: what it says about completeness is all the client gets
+					var hr *seqproxyapi.GetHistogramResponse
+					hr, gerr = api.GetHistogram(ctx, &seqproxyapi.GetHistogramRequest{Query: pq, Hist: &seqproxyapi.HistQuery{Interval: "1s"}})
+					resp = histResp{hr}
+					rq.Offset, rq.Size, rq.Fetch, rq.Desc = 0, 0, false, true
+					r.res.Probes["grpc_get_histogram_requests"]++
+				} else if (rq.Offset+rq.Size+rq.TimeoutMs)%3 == 0 {
 					var sr *seqproxyapi.SearchResponse
 					sr, gerr = api.Search(ctx, &seqproxyapi.SearchRequest{Query: pq, Size: int64(rq.Size), Offset: int64(rq.Offset), WithTotal: true, Order: porder})
 					resp = sr
